@@ -21,7 +21,7 @@ RULE = ('each evaluation compares one output of one sm2_z256_* call (integer, ca
         'operands: boundary set {0,1,2,limb patterns,2^255,p-3..p+3,n-3..n+3,2^256-1,(p+-1)/2,R mod p,R mod n,...} '
         'crossed with itself plus seeded random values, each function inside its domain; points as equal / opposite / '
         'infinite ((1:1:0), (0:0:0), (k^2:k^3:0)) / non-normalised Jacobian representatives; scalars: every k in '
-        '[0,W], [n-W,n+W], [2^256-W,2^256) (W=1024 quick, 16384 thorough), 2^(5i)+-1, 2^(7i)+-1, random, for each of '
+        '[0,W], [n-W,n+W], [2^256-W,2^256) (W=1024 quick, 8192 thorough; thorough also 2048 either side of p, 2^255, (n+1)/2, 2^256-n, 2^128), 2^(5i)+-1, 2^(7i)+-1, random, for each of '
         'point_mul, pre_compute+mul_ex, mul_generator, mul_sum; a case is distinct+non-trivial when its (function, '
         'operand tuple, aliasing mode, build flavour) has not been compared before in this run')
 ASSUMPTIONS = ['CPython integer arithmetic and vf.ref.sm2 / vf.ref.z256 are correct (self-tested at start-up on the '
@@ -56,7 +56,7 @@ def _chunks(lo, hi, size=1024):
 def plan(tier, seed):
     quick = tier == 'quick'
     units = []
-    W = 1024 if quick else 16384
+    W = 1024 if quick else 8192
     # weights are measured CPU seconds per unit (rounded), used only for load balancing
     for fl in ('asan', 'asan-amd64'):
         nint = 3 if quick else 12
@@ -827,6 +827,14 @@ def u_misc(ctx, u):
             cases.append(('x+p', q[0] + P, q[1], -1))
         if q[1] + P < R:
             cases.append(('y+p', q[0], q[1] + P, -1))
+    # coordinates congruent to a curve point but not below p (needs x < 2^256 - p, so the smallest abscissas)
+    nsmall = 0
+    for x0 in range(0, 400):
+        q = E.lift_x(x0, x0 & 1)
+        if q is not None and nsmall < 6:
+            nsmall += 1
+            cases.append(('on-curve', q[0], q[1], 1))
+            cases.append(('x+p', q[0] + P, q[1], -1))
     for i in range(20):
         o = Z.off_curve_point(rng)
         cases.append(('off-curve', o[0], o[1], -1))
